@@ -835,9 +835,11 @@ fn adversarial<H: HK>(case: &CoreCase, totality: bool) -> Result<CaseInfo, Viola
     let mut mutated_verified = 0u64;
 
     // ---- path proofs
+    let mut verified_full: Vec<VerifiedPathProof> = Vec::new();
     for (ti, (qk, p, _d)) in terms.iter().enumerate() {
         let mut p = p.clone();
         let mut mutated = false;
+        let mut first_key = true;
         for m in case.muts.iter().filter(|m| m.kind < 12 && (m.a as usize % terms.len()) == ti) {
             mutate_path(&mut p, m, &w);
             mutated = true;
@@ -864,6 +866,10 @@ fn adversarial<H: HK>(case: &CoreCase, totality: bool) -> Result<CaseInfo, Viola
                         mutated_verified += 1;
                     }
                     info.bump("path_proofs_verified");
+                    if root == w.root && len == 256 && first_key {
+                        verified_full.push(v.clone());
+                    }
+                    first_key = false;
                     if root == w.root {
                         judge
                             .path_statements::<H>(&v, &pr, &ops, root, &format!("path proof #{ti} (mutated: {mutated}) verified under a {len}-bit key"))
@@ -880,7 +886,48 @@ fn adversarial<H: HK>(case: &CoreCase, totality: bool) -> Result<CaseInfo, Viola
                         let _ = judge.path_statements::<H>(&v, &pr, &ops, root, "");
                     }
                 }
-                Ok(Err(_)) => info.bump("path_proofs_rejected"),
+                Ok(Err(_)) => {
+                    first_key = false;
+                    info.bump("path_proofs_rejected")
+                }
+                Err(pn) => {
+                    first_key = false;
+                    judge.panics.push(pn)
+                }
+            }
+        }
+    }
+    // several verified path proofs (mutated or not) in one verify_update: Ok(r) must be the true root of the set with
+    // exactly the submitted ops applied - for every prefix of the path list, so that every path gets to be the last
+    verified_full.sort_by(|a, b| a.path().cmp(b.path()));
+    verified_full.dedup_by(|a, b| a.path() == b.path());
+    if verified_full.len() >= 2 {
+        let mut updates: Vec<PathUpdate> = Vec::new();
+        for vp in &verified_full {
+            let mine: Vec<(Key, Option<[u8; 32]>)> = ops.iter().filter(|(k, _)| k.view_bits::<Msb0>().starts_with(vp.path())).cloned().collect();
+            if !mine.is_empty() {
+                updates.push(PathUpdate { inner: vp.clone(), ops: mine });
+            }
+        }
+        for n in 2..=updates.len() {
+            let part = &updates[..n];
+            let applied: Vec<(Key, Option<[u8; 32]>)> = part.iter().flat_map(|u| u.ops.iter().cloned()).collect();
+            match cu(|| verify_update::<H::N>(w.root, part)) {
+                Ok(Ok(r)) => {
+                    let want = RefTrie::new(H::KIND, &apply_ops(&w.kv, &applied)).root();
+                    if r != want {
+                        return Err(viol(format!(
+                            "verify_update over {} verified path proofs ({} ops) returns {} but the true root of the updated set is {}",
+                            n,
+                            applied.len(),
+                            hx8(&r),
+                            hx8(&want)
+                        )));
+                    }
+                    judge.judged += 1;
+                    info.bump("multi_path_updates_judged");
+                }
+                Ok(Err(_)) => {}
                 Err(pn) => judge.panics.push(pn),
             }
         }
@@ -1118,7 +1165,7 @@ impl Check for C08 {
          leaf; multi-proof depth 0/±k/255/256/257/usize::MAX, consistent and inconsistent with the terminal, shallower depth, path swap/duplicate/drop/foreign path, sibling moves across \
          bisections, truncation/extension) verified under the query key, a key sharing the scope, shorter key slices and the leaf's own key, against the true root of S. Oracle from S only: \
          whenever verification returns Ok, confirm_value == Ok(true) implies S[key] has that hash, confirm_nonexistence == Ok(true) implies key not in S, and every verify_update / \
-         verify_multi_proof_update returning Ok(r) has r == reference root of S with the ops applied - also for the same ops in orders that are not sorted (reversed, rotated, local permutations, neighbouring swaps), which may be rejected but must not yield another root. Err is always fine; panics are counted, not judged (C18). Non-trivial = case in which a \
+         verify_multi_proof_update returning Ok(r) has r == reference root of S with the ops applied - also for the same ops in orders that are not sorted (reversed, rotated, local permutations, neighbouring swaps), which may be rejected but must not yield another root; all path proofs of the case that verified are also submitted together in one verify_update (every prefix of the sorted path list), Ok(r) must be the true root with exactly the submitted ops applied. Err is always fine; panics are counted, not judged (C18). Non-trivial = case in which a \
          MUTATED object still verified (label mutated_objects_verified); distinct = distinct serialized case".into()
     }
     fn assumptions() -> Vec<String> {
